@@ -17,6 +17,7 @@ import (
 	"sort"
 	"strconv"
 	"strings"
+	"sync"
 	"testing"
 
 	"github.com/uber-go/tally"
@@ -574,12 +575,41 @@ func c07driver(ctx *verifhlib.Ctx) {
 	log.SetGlobalLogger(zap.NewNop().Sugar())
 	r := verifhlib.NewRng(ctx.Seed)
 	ncase := 0
+	// cases are independent (own store directory, own forked generator): they are queued here and
+	// executed by a small worker pool at the end of the driver; results are emitted in queue order
+	type job struct {
+		cfg  c07cfg
+		next func(int, *store) (c07op, bool)
+		kind string
+	}
+	var jobs []job
 	emitg := func(cfg c07cfg, next func(int, *store) (c07op, bool), kind string) {
 		ncase++
-		res := c07run(ctx, filepath.Join(ctx.Tmp, fmt.Sprintf("s%d", ncase)), cfg, next)
-		ctx.Emit(verifhlib.Case{Coq: res.coq, NT: res.nt, Kind: kind, Hist: res.hist, Tags: res.tags,
-			Sample: map[string]string{"case": res.coq}})
+		jobs = append(jobs, job{cfg, next, kind})
 	}
+	defer func() {
+		results := make([]c07result, len(jobs))
+		var wg sync.WaitGroup
+		ch := make(chan int)
+		for w := 0; w < 8; w++ {
+			wg.Add(1)
+			go func() {
+				defer wg.Done()
+				for i := range ch {
+					results[i] = c07run(ctx, filepath.Join(ctx.Tmp, fmt.Sprintf("s%d", i)), jobs[i].cfg, jobs[i].next)
+				}
+			}()
+		}
+		for i := range jobs {
+			ch <- i
+		}
+		close(ch)
+		wg.Wait()
+		for i, res := range results {
+			ctx.Emit(verifhlib.Case{Coq: res.coq, NT: res.nt, Kind: jobs[i].kind, Hist: res.hist, Tags: res.tags,
+				Sample: map[string]string{"case": res.coq}})
+		}
+	}()
 	emit := func(cfg c07cfg, ops []c07op, kind string) { emitg(cfg, c07fixed(ops), kind) }
 	cw := func(k int, size uint64, data string) c07op {
 		return c07op{kind: c07CreateW, key: k, size: size, data: []byte(data)}
